@@ -151,6 +151,30 @@ impl<I: Iterator + Sized> VxIterFilter for I {
     { unimplemented!() }
 }
 
+// ---- all / any (eager; the closure enters only through call_requires / call_ensures) ----
+pub trait VxIterAllAny: Iterator + Sized {
+    fn vx_all<P: FnMut(Self::Item) -> bool>(&mut self, p: P) -> (r: bool)
+        requires
+            old(self).obeys_prophetic_iter_laws(),
+            forall|k: int| 0 <= k < old(self).remaining().len() ==> call_requires(p, (#[trigger] old(self).remaining()[k],)),
+        ensures
+            r ==> forall|k: int| 0 <= k < old(self).remaining().len() ==> call_ensures(p, (#[trigger] old(self).remaining()[k],), true),
+            !r ==> exists|k: int| 0 <= k < old(self).remaining().len() && call_ensures(p, (#[trigger] old(self).remaining()[k],), false);
+    fn vx_any<P: FnMut(Self::Item) -> bool>(&mut self, p: P) -> (r: bool)
+        requires
+            old(self).obeys_prophetic_iter_laws(),
+            forall|k: int| 0 <= k < old(self).remaining().len() ==> call_requires(p, (#[trigger] old(self).remaining()[k],)),
+        ensures
+            r ==> exists|k: int| 0 <= k < old(self).remaining().len() && call_ensures(p, (#[trigger] old(self).remaining()[k],), true),
+            !r ==> forall|k: int| 0 <= k < old(self).remaining().len() ==> call_ensures(p, (#[trigger] old(self).remaining()[k],), false);
+}
+impl<I: Iterator + Sized> VxIterAllAny for I {
+    #[verifier::external_body]
+    fn vx_all<P: FnMut(Self::Item) -> bool>(&mut self, p: P) -> (r: bool) { self.all(p) }
+    #[verifier::external_body]
+    fn vx_any<P: FnMut(Self::Item) -> bool>(&mut self, p: P) -> (r: bool) { self.any(p) }
+}
+
 // the same method name on Result / Option (the rewrite is purely syntactic)
 pub trait VxResultMap<T, E>: Sized {
     spec fn as_result(self) -> Result<T, E>;
